@@ -196,11 +196,20 @@ class SymNP:
         return _np.linspace(start, stop, num, endpoint=endpoint, dtype=dtype, **kw)
 
     # -- element-wise maths ----------------------------------------------------------------------
-    def _unary(self, x, fsym, fnp):
+    def _unary(self, x, fsym, fnp, fpy=None):
         if isinstance(x, (Sym, SymBool, SymComplex)):
             return fsym(x)
+        if isinstance(x, Fraction) and fpy is not None:
+            return exact(fpy(x))
         if isinstance(x, _np.ndarray) and x.dtype == object:
-            return A.elementwise(lambda a: fsym(a) if is_symbolic(a) else _coerce(fnp(a)), x)
+            def one(a):
+                if is_symbolic(a):
+                    return fsym(a)
+                if fpy is not None and isinstance(a, (Fraction, int)) and not isinstance(a, bool):
+                    return exact(fpy(a))
+                return exact(_coerce(fnp(float(a) if isinstance(a, Fraction) else a)))
+
+            return A.elementwise(one, x)
         if isinstance(x, (list, tuple)) and A.any_symbolic(x):
             return self._unary(A.to_symarray(x), fsym, fnp)
         if hasattr(x, "_np_unary"):
@@ -208,28 +217,28 @@ class SymNP:
         return fnp(x)
 
     def sqrt(self, x):
-        return self._unary(x, sym_sqrt, lambda a: sym_sqrt(a) if isinstance(a, (int, float, Fraction)) else _np.sqrt(a))
+        return self._unary(x, sym_sqrt, lambda a: sym_sqrt(a) if isinstance(a, (int, float, Fraction)) else _np.sqrt(a), sym_sqrt)
 
     def exp(self, x):
         return self._unary(x, sym_exp, _np.exp)
 
     def ceil(self, x):
-        return self._unary(x, lambda a: Sym(_real(z_ceil(a.e))), _np.ceil)
+        return self._unary(x, lambda a: Sym(_real(z_ceil(a.e))), _np.ceil, math.ceil)
 
     def floor(self, x):
-        return self._unary(x, lambda a: Sym(_real(z_floor(a.e))), _np.floor)
+        return self._unary(x, lambda a: Sym(_real(z_floor(a.e))), _np.floor, math.floor)
 
     def fix(self, x):
-        return self._unary(x, lambda a: Sym(_real(z_trunc(a.e))), _np.fix)
+        return self._unary(x, lambda a: Sym(_real(z_trunc(a.e))), _np.fix, math.trunc)
 
     def trunc(self, x):
-        return self._unary(x, lambda a: Sym(_real(z_trunc(a.e))), _np.trunc)
+        return self._unary(x, lambda a: Sym(_real(z_trunc(a.e))), _np.trunc, math.trunc)
 
     def rint(self, x):
-        return self._unary(x, lambda a: a.rint(), _np.rint)
+        return self._unary(x, lambda a: a.rint(), _np.rint, round)
 
     def abs(self, x):
-        return self._unary(x, abs, _np.abs)
+        return self._unary(x, abs, _np.abs, abs)
 
     absolute = abs
 
